@@ -39,7 +39,8 @@ PHI, RHO = lang.PHI, lang.RHO
 TIME = "time"
 REALVAR = "r"
 BATCH_SIZES = {"a": 2, "b": 3}
-PAIR_NAMES = (("xp", "xc"), ("yp", "yc"), ("zp", "zc"))
+PREV_POOL = ("xp", "yp", "zp")
+CURR_POOL = ("xc", "yc", "zc")  # pair i is (PREV_POOL[i], CURR_POOL[perm[i]])
 SEMIRING_OPS = {
     "add_mul": ("add", "mul"),
     "logaddexp_add": ("logaddexp", "add"),
@@ -157,11 +158,14 @@ def bind_and_compare(res, names, sizes, expected_at, real, seed):
 
 
 def seq_setup(case, seed):
-    """case = ["seq", semiring, duration, state sizes, batch deps, dep_time, real, fill, layout, entry]."""
-    _, sr, T, sizes_, deps, dep_time, real, fill, layout, entry = case
+    """case = ["seq", semiring, duration, state sizes, batch deps, dep_time, real, fill, layout, perm, entry].
+
+    ``perm`` assigns curr names to pairs: with a non-identity perm the prev names and the curr names of the pairs
+    sort in different orders ("crossed" names), so pairing by separately sorted names contracts the wrong pair."""
+    _, sr, T, sizes_, deps, dep_time, real, fill, layout, perm, entry = case
     npairs = len(sizes_)
-    prevs = [PAIR_NAMES[i][0] for i in range(npairs)]
-    currs = [PAIR_NAMES[i][1] for i in range(npairs)]
+    prevs = [PREV_POOL[i] for i in range(npairs)]
+    currs = [CURR_POOL[perm[i]] for i in range(npairs)]
     sizes = {n: BATCH_SIZES[n] for n in deps}
     for i, s in enumerate(sizes_):
         sizes[prevs[i]] = sizes[currs[i]] = s
@@ -444,6 +448,10 @@ def bounds(tier):
         "layouts": {"0": "batch.., time, prev/curr interleaved (all)",
                     "1": "curr.., prev.., time, batch reversed (thorough, <= 2 pairs, generic data)"},
         "seq_config_count": len(cfgs),
+        "state_names": "pair i = (PREV_POOL[i], CURR_POOL[perm[i]]); identity perm for every configuration; every "
+                       "non-identity perm (prev and curr names sort differently) for >= 2 pairs, every size tuple, "
+                       "generic data, no real parameter, layout 0, durations %s%s"
+                       % (list(CROSSED_DURATIONS), " (2 pairs: every duration)" if thorough else ""),
         "semirings": list(markov.SEMIRINGS),
         "seq_entries": ["seq", "naive", "mixed:k for every k in 1..duration+1", "mp_eager", "mp_lazy", "mp_fresh",
                         "mp_swap", "mp_swap_eager", "mp_reduce_curr", "mp_reduce_prev",
@@ -481,11 +489,29 @@ def seq_configs(tier):
     return out
 
 
+def _perms(n):
+    if n == 0:
+        return [[]]
+    return [[v] + [w if w < v else w + 1 for w in rest] for v in range(n) for rest in _perms(n - 1)]
+
+
+CROSSED_DURATIONS = (2, 3, 5)
+
+
 def seq_cases(tier):
     thorough = tier == "thorough"
     out = []
     for T in range(1, (12 if thorough else 8) + 1):
-        for sizes, real, fill, layout in seq_configs(tier):
+        configs = [(sizes, real, fill, layout, list(range(len(sizes)))) for sizes, real, fill, layout in seq_configs(tier)]
+        # crossed names: every non-identity assignment of curr names to pairs, every size tuple (incl. equal sizes),
+        # generic data, no real parameter, layout 0; quick: durations 2,3,5; thorough: 2 pairs every duration,
+        # 3 pairs durations 2,3,5
+        for npairs in range(2, (3 if thorough else 2) + 1):
+            if T in CROSSED_DURATIONS or (thorough and npairs == 2):
+                for sizes in _tuples([1, 2, 3], npairs):
+                    for perm in _perms(npairs)[1:]:
+                        configs.append((sizes, 0, "g", 0, perm))
+        for sizes, real, fill, layout, perm in configs:
             for deps in DEPS:
                 for dep_time in (1, 0):
                     for sr in markov.SEMIRINGS:
@@ -493,7 +519,7 @@ def seq_cases(tier):
                         if deps:
                             entries = entries + ["mp_time_collide"]
                         for e in entries:
-                            out.append(["seq", sr, T, sizes, deps, dep_time, real, fill, layout, e])
+                            out.append(["seq", sr, T, sizes, deps, dep_time, real, fill, layout, perm, e])
     return out
 
 
@@ -535,9 +561,10 @@ def cases(tier):
 
 def describe(case):
     if case[0] == "seq":
-        _, sr, T, sizes, deps, dep_time, real, fill, layout, e = case
-        return "%s[%s] T=%d states=%s deps=%s%s real=%d data=%s layout=%d" % (
-            e, sr, T, sizes, ["time"] * dep_time + list(deps), "", real, fill, layout)
+        _, sr, T, sizes, deps, dep_time, real, fill, layout, perm, e = case
+        step = {PREV_POOL[i]: CURR_POOL[perm[i]] for i in range(len(sizes))}
+        return "%s[%s] T=%d states=%s step=%s deps=%s real=%d data=%s layout=%d" % (
+            e, sr, T, sizes, step, ["time"] * dep_time + list(deps), real, fill, layout)
     _, sr, T, vs, globs, fill, layout, e = case
     return "sarkka_bilmes %s[%s] T=%d vars=%s globals=%s data=%s layout=%d" % (e, sr, T, vs, globs, fill, layout)
 
@@ -567,7 +594,7 @@ def check(case, seed):
     # features are kept small (known-finding predicates); everything else is in the message and the case
     feats = {"entry": ek, "what": kind.split(":", 1)[1]}
     if case[0] == "seq":
-        feats.update(dep_time=bool(case[5]), real=bool(case[6]))
+        feats.update(dep_time=bool(case[5]), real=bool(case[6]), crossed_names=case[9] != sorted(case[9]))
         if ek not in ("seq", "naive"):
             cfg = seq_setup(case, seed)
             for e in ["seq"] if ek != "mixed" else ["seq", "naive"]:
